@@ -103,7 +103,8 @@ def hKeyCollisions (args : List String) (real : Option String) : Option Out := d
   some { model := "0", verdict := v }
 
 def keysHandlers : List (String × (List String → Option String → Option Out)) :=
-  [("key-cp", hKeyCp), ("key-inst", hKeyInst), ("key-index", hKeyIndex),
+  -- `key-cfg`: the same key, built from the group name as `config.ApplyDefaults` leaves it (a set name is never altered: C17_keeps_set)
+  [("key-cp", hKeyCp), ("key-cfg", hKeyCp), ("key-inst", hKeyInst), ("key-index", hKeyIndex),
    ("key-meta", hKeyMeta), ("key-collisions", hKeyCollisions)]
 
 end GoDcp.Driver
